@@ -621,3 +621,124 @@ Proof.
     + destruct l as [|c1 l1]; [discriminate|]. intro A. apply (f_equal (@length Z)) in A.
       rewrite !app_length, rev_length in A. cbn in A. rewrite app_length in A. cbn in A. lia.
 Qed.
+
+(* ---- the pattern-freeness of the first-pass output, from the fields of the input -------------- *)
+Definition Qf (t : list Z) : bool := forallb (fun f => negb (ends_dotdot f)) (fields t).
+
+Lemma ends_dotdot_cons : forall a f, ends_dotdot f = true -> ends_dotdot (a :: f) = true.
+Proof. intros a f H. destruct f as [|b [|c f']]; [discriminate|discriminate|exact H]. Qed.
+
+Lemma Qf_tail : forall a t, Qf (a :: t) = true -> Qf t = true.
+Proof.
+  intros a t H. unfold Qf in *. cbn [fields] in H. destruct (a =? SEP).
+  - cbn in H. exact H.
+  - pose proof (fields_nonnil t) as N. destruct (fields t) as [|f fs]; [congruence|].
+    cbn [forallb] in *. apply andb_true_iff in H as [H1 H2]. rewrite H2, andb_true_r.
+    destruct (ends_dotdot f) eqn:E; [|reflexivity]. rewrite (ends_dotdot_cons a f E) in H1. discriminate.
+Qed.
+
+Lemma nth_repeat0 : forall n m, nth n (repeat 0 m) 0 = 0.
+Proof.
+  intros n m. destruct (nth_in_or_default n (repeat 0 m) 0) as [I | I]; [|exact I].
+  apply repeat_spec in I. exact I.
+Qed.
+
+Lemma Qf_nth : forall t m, Qf t = true -> Forall (fun c => c <> 0) t -> forall n,
+  nth n (t ++ repeat 0 m) 0 = DOT -> nth (S n) (t ++ repeat 0 m) 0 = DOT ->
+  nth (S (S n)) (t ++ repeat 0 m) 0 <> 0 /\ nth (S (S n)) (t ++ repeat 0 m) 0 <> SEP.
+Proof.
+  induction t as [|a t IH]; intros m HQ HZ n H1 H2.
+  - cbn [app] in H1. rewrite nth_repeat0 in H1. discriminate.
+  - inversion HZ; subst. destruct n as [|n'].
+    + cbn [app nth] in *. subst a. destruct t as [|b t2].
+      * cbn [app] in H2. rewrite nth_repeat0 in H2. discriminate.
+      * cbn [app nth] in *. subst b. destruct t2 as [|c t3].
+        -- cbn in HQ. discriminate.
+        -- cbn [app nth]. split; [rewrite Forall_forall in HZ; apply HZ; right; right; left; reflexivity|].
+           intro A. subst c. cbn in HQ. discriminate.
+    + cbn [app nth] in *. apply (IH m (Qf_tail _ _ HQ) H4 n' H1 H2).
+Qed.
+
+Lemma nodd_B : forall acc m, Qf (rev acc) = true -> Forall (fun c => c <> 0) acc -> nodd (B acc m).
+Proof.
+  intros acc m HQ HZ i Hi G1 G2. unfold get in *.
+  replace (i - 1 <? 0) with false in G1 by lia. replace (i <? 0) with false in G2 by lia.
+  replace (i + 1 <? 0) with false by lia.
+  replace (Z.to_nat i) with (S (Z.to_nat (i - 1))) in G2 by lia.
+  replace (Z.to_nat (i + 1)) with (S (S (Z.to_nat (i - 1)))) by lia.
+  unfold B in *. apply (Qf_nth (rev acc) m HQ (Forall_rev HZ) _ G1 G2).
+Qed.
+
+Lemma fields_body : forall K l, Forall sepfree K -> sepfree l -> fields (body K ++ l) = K ++ [l].
+Proof.
+  induction K as [|f K IH]; intros l HK Hl.
+  - cbn. apply fields_sepfree. exact Hl.
+  - inversion HK; subst. unfold body. cbn [map concat]. rewrite <- !app_assoc. cbn [app].
+    rewrite fields_app_sep by assumption. fold (body K). rewrite IH by assumption. reflexivity.
+Qed.
+
+Lemma Forall_filter : forall (A : Type) (P : A -> Prop) p l, Forall P l -> Forall P (filter p l).
+Proof.
+  intros A P p l H. apply Forall_forall. intros x Hx. apply filter_In in Hx as [Hx _].
+  rewrite Forall_forall in H. apply H. exact Hx.
+Qed.
+
+Lemma Qf_first_pass : forall k fs, (k = 0 \/ k = 1) -> fs <> [] -> Forall sepfree fs ->
+  forallb (fun f => negb (ends_dotdot f)) fs = true ->
+  Qf (rev (rev (emit fs) ++ root_acc k)) = true.
+Proof.
+  intros k fs Hk N Hsf HP. rewrite rev_app_distr, rev_involutive, rev_root_acc.
+  rewrite emit_body by exact N.
+  assert (HK : Forall sepfree (filter keepf (removelast fs))) by (apply Forall_filter, Forall_removelast; exact Hsf).
+  assert (Hl : sepfree (last fs [])) by (apply Forall_last; assumption).
+  assert (Q0 : Qf (body (filter keepf (removelast fs)) ++ last fs []) = true).
+  { unfold Qf. rewrite fields_body by assumption. rewrite forallb_forall in *. intros x Hx.
+    apply HP. apply in_app_or in Hx as [Hx | [<- | []]].
+    - apply filter_In in Hx as [Hx _]. destruct (exists_last N) as (X & l & ->).
+      rewrite removelast_app1 in Hx. apply in_or_app. left. exact Hx.
+    - destruct (exists_last N) as (X & l & ->). rewrite last_app1. apply in_or_app. right. left. reflexivity. }
+  destruct Hk as [-> | ->]; [exact Q0|].
+  change (root_acc 1) with [SEP]. unfold Qf in *. cbn [app fields]. rewrite Z.eqb_refl. cbn. exact Q0.
+Qed.
+
+(* ---- the partial theorem: on no_dotdot_tail the model returns exactly std_normal ---------- *)
+Lemma ends_dotdot_of_is_dotdot : forall f, ends_dotdot f = false -> is_dotdot f = false.
+Proof.
+  intros f H. destruct (is_dotdot f) eqn:E; [|reflexivity]. apply is_dotdot_eq in E. subst f. cbn in H. discriminate.
+Qed.
+
+Lemma zix_normal_on_class : forall s, c_string s -> no_dotdot_tail s = true ->
+  zix_normal_opt s = Some (std_normal s).
+Proof.
+  intros s Hc H. unfold no_dotdot_tail in H. apply andb_true_iff in H as [HA HF].
+  apply negb_true_iff in HA. destruct s as [|c s']; [reflexivity|].
+  assert (Main : forall k rel, (k = 0 \/ k = 1) -> c :: s' = root_acc k ++ rel -> has_root rel = false ->
+            has_root (c :: s') = (k =? 1) ->
+            forallb (fun e => negb (ends_dotdot e)) (fields rel) = true ->
+            elems (c :: s') = elems_of (fields rel) ->
+            zix_normal_opt (c :: s') = Some (std_normal (c :: s'))).
+  { intros k rel Hk Hs Hrel HR HP HE.
+    pose proof (fields_nonnil rel) as N. pose proof (fields_sepfree_all rel) as Hsf.
+    assert (Nz : Forall (fun x => x <> 0) (rev (emit (fields rel)) ++ root_acc k)).
+    { apply (P1_forall (fun x => x <> 0) (S (length rel)) rel (root_acc k)).
+      - cbv beta. discriminate.
+      - unfold c_string in Hc. rewrite Hs in Hc. apply Forall_app in Hc. apply Hc.
+      - destruct Hk as [-> | ->]; repeat constructor. discriminate.
+      - pose proof (P1_spec (S (length rel)) rel [] (root_acc k)) as Q. cbn [rev app] in Q. apply Q.
+        + lia.
+        + destruct Hk as [-> | ->]; reflexivity.
+        + constructor.
+        + intros _. exact Hrel. }
+    rewrite (zix_normal_k (c :: s') k rel Hk ltac:(discriminate) Hs Hrel Hc).
+    - f_equal. rewrite fin_render; [|exact Hk|exact N|exact Hsf|].
+      + unfold std_normal. rewrite HR, HE. rewrite normal_elems_of_fields by exact N. reflexivity.
+      + intros f Hf. apply ends_dotdot_of_is_dotdot. rewrite forallb_forall in HP.
+        apply negb_true_iff. apply HP. exact Hf.
+    - intro m. apply nodd_B; [|exact Nz]. apply Qf_first_pass; assumption. }
+  destruct (c =? SEP) eqn:Ec.
+  - apply Z.eqb_eq in Ec. subst c. apply (Main 1 s'); [right; reflexivity|reflexivity| |reflexivity| |].
+    + destruct s' as [|d s'']; [reflexivity|]. cbn in HA. cbn. exact HA.
+    + cbn [fields] in HF. rewrite Z.eqb_refl in HF. cbn in HF. exact HF.
+    + rewrite elems_unfold. cbn [fields]. rewrite Z.eqb_refl. apply elems_of_cons_empty. apply fields_nonnil.
+  - apply (Main 0 (c :: s')); [left; reflexivity|reflexivity|cbn; exact Ec|cbn; exact Ec|exact HF|apply elems_unfold].
+Qed.
